@@ -90,8 +90,14 @@ func NewNet(r *rand.Rand, opt NetOpt) *Net {
 	if ih == 0 {
 		ih = 1
 	}
+	// The simulation decides heights far faster than real time.  With the default time_iota_ms (1000) every
+	// height pushes the block time a full second ahead, block time overtakes the wall clock that correct
+	// nodes stamp their votes with, and the premise of C03 ("clocks are not behind the time of the latest
+	// block") is broken by the harness itself; 1 ms keeps chain time behind the wall clock.
+	params := types.DefaultConsensusParams()
+	params.Block.TimeIotaMs = 1
 	n.GenDoc = &types.GenesisDoc{GenesisTime: time.Now().Add(-time.Hour).UTC(), ChainID: n.ChainID, InitialHeight: ih,
-		ConsensusParams: types.DefaultConsensusParams(), Validators: gvals}
+		ConsensusParams: params, Validators: gvals}
 	if err := n.GenDoc.ValidateAndComplete(); err != nil {
 		panic(err)
 	}
